@@ -444,6 +444,9 @@ def gen_collapse(rng):
         # devices that differ in an snmp secret only (annet/diff.py:155-158 masks it in the grouping key: recorded finding)
         base.insert(rng.randint(0, len(base)), [rng.choice(CIPHER_ROWS) % "SECRET1", [], rng.choice(["N", "N", "O"])])
         fams.append("cipher")
+        if rng.random() < 0.6:
+            # ... and devices whose row differs in what FOLLOWS the secret (acl binding, trap version): another diff
+            fams.append("ciphertail")
     for i, fam in enumerate(fams):
         u = base
         if fam == "context":
@@ -458,6 +461,9 @@ def gen_collapse(rng):
             u = universe(rng, spec, 0.35 if shipped else 0.5)
         elif fam == "cipher":
             u = [[n[0].replace("SECRET1", "SECRET%d" % (i + 1)), n[1], n[2]] for n in base]
+        elif fam == "ciphertail":
+            u = [[n[0].replace("acl 2001", "acl 2999").replace(" v2c", " v3") if "SECRET1" in n[0] else n[0], n[1], n[2]]
+                 for n in base]
         vendor = rng.choice(vendors)
         devs.append(dict(name="sw%d" % (i + 1), vendor=vendor, model=rng.choice(MODELS[vendor]) if shipped else None,
                          fam=fam, old=side(u, "O"), new=side(u, "N")))
